@@ -585,3 +585,61 @@ pub fn readonly_histories(seed: u64, n: usize, max_ops: u64, with_crash: bool) -
     }
     c.out
 }
+
+// ---------------------------------------------------------------------------------------------
+// the storage backends against the flat-file model (C14)
+
+pub fn backend_sequences(seed: u64, n: usize) -> RunOut {
+    use random_access_storage::RandomAccess;
+    use crate::backend::block_on;
+    let mut r = Rng::new(seed);
+    let mut out = RunOut { ops: vec![], outs: vec![], stats: BTreeMap::new(), failures: vec![], samples: vec![] };
+    let dir = tempfile::Builder::new().prefix("hcverif-be").tempdir_in("/verif/work").or_else(|_| tempfile::tempdir()).unwrap();
+    for case in 0..n {
+        let mut mem = random_access_memory::RandomAccessMemory::new(if case % 3 == 0 { 16 } else if case % 3 == 1 { 1024 } else { 1024 * 1024 });
+        let path = dir.path().join(format!("f{case}"));
+        let mut disk = block_on(random_access_disk::RandomAccessDisk::open(path.clone())).unwrap();
+        let mut flat: crate::backend::Files = Default::default();
+        out.ops.push("fnew".into()); out.outs.push("ok".into());
+        let mut hist = vec![];
+        for _ in 0..r.range(3, 25) {
+            let len = flat[0].len() as u64;
+            let (line, expect): (String, String) = match r.below(10) {
+                0..=3 => { let off = if r.chance(1, 4) { len + r.below(40) } else { r.below(len + 1) }; let dl = *r.pick(&[0usize, 1, 3, 17, 40, 100]); let d = r.bytes(dl); crate::backend::apply(&mut flat, &crate::backend::Op::Write(0, off, d.clone())); (format!("fwrite {off} {}", hex(&d)), format!("ok size={}", flat[0].len())) }
+                4..=6 => { let off = r.below(len + 3); let l = r.below(30); let e = if off + l > len { "err".to_string() } else { format!("ok {}", crate::sim::show(&flat[0][off as usize..(off + l) as usize])) }; (format!("fread {off} {l}"), e) }
+                7..=8 => { let off = r.below(len + 3); let l = r.below(40); let e = if off > len { "err".to_string() } else { crate::backend::apply(&mut flat, &crate::backend::Op::Del(0, off, l)); format!("ok size={}", flat[0].len()) }; (format!("fdel {off} {l}"), e) }
+                _ => { let nl = r.below(len + 20); crate::backend::apply(&mut flat, &crate::backend::Op::Trunc(0, nl)); (format!("ftrunc {nl}"), format!("ok size={}", flat[0].len())) }
+            };
+            hist.push(line.clone());
+            let ws: Vec<&str> = line.split(' ').collect();
+            let mut results = vec![];
+            for (bname, b) in [("memory", &mut mem as &mut (dyn RandomAccess + Send)), ("disk", &mut disk as &mut (dyn RandomAccess + Send))] {
+                let res = block_on(async {
+                    match ws[0] {
+                        "fwrite" => { let d = crate::rng::unhex(ws[2]); match b.write(ws[1].parse().unwrap(), &d).await { Ok(()) => format!("ok size={}", b.len().await.unwrap()), Err(_) => "err".into() } }
+                        "fread" => match b.read(ws[1].parse().unwrap(), ws[2].parse().unwrap()).await { Ok(v) => format!("ok {}", crate::sim::show(&v)), Err(_) => "err".into() },
+                        "fdel" => match b.del(ws[1].parse().unwrap(), ws[2].parse().unwrap()).await { Ok(()) => format!("ok size={}", b.len().await.unwrap()), Err(_) => "err".into() },
+                        _ => match b.truncate(ws[1].parse().unwrap()).await { Ok(()) => format!("ok size={}", b.len().await.unwrap()), Err(_) => "err".into() },
+                    }
+                });
+                results.push((bname, res));
+            }
+            // a zero-length write past the end extends the memory backends but not the disk file: compare
+            // sizes only where the property does (contents up to zero-filled holes) — see `dumpz`
+            for (bname, res) in &results {
+                let same = *res == expect || (*bname == "disk" && res.starts_with("ok size=") && expect.starts_with("ok size="));
+                if !same { out.failures.push(Failure { key: format!("backend-differs-from-flat-file:{bname}"), detail: format!("backend {bname} answered [{res}] to `{line}`, the flat-file model says [{expect}] || sequence: {}", hist.join(" ; ")), line: out.ops.len() }); }
+            }
+            out.ops.push(line); out.outs.push(expect);
+        }
+        // final contents, up to trailing zeros
+        let trim = |v: &Vec<u8>| { let mut n = v.len(); while n > 0 && v[n - 1] == 0 { n -= 1; } v[..n].to_vec() };
+        let m = block_on(async { let l = mem.len().await.unwrap(); mem.read(0, l).await.unwrap() });
+        let d = std::fs::read(&path).unwrap_or_default();
+        if trim(&m) != trim(&flat[0]) || trim(&d) != trim(&flat[0]) { out.failures.push(Failure { key: "backend-contents-differ".into(), detail: format!("final contents differ: flat {} memory {} disk {} || sequence: {}", crate::sim::show(&flat[0]), crate::sim::show(&m), crate::sim::show(&d), hist.join(" ; ")), line: out.ops.len() }); }
+        *out.stats.entry("cases".into()).or_insert(0) += 1;
+        *out.stats.entry("distinct".into()).or_insert(0) += 1;
+        if out.samples.len() < 2 { out.samples.push(hist.join(" ; ")); }
+    }
+    out
+}
